@@ -78,15 +78,41 @@ CFG_SECTIONS = ["experiment", "imaging", "setup", "online_contour"]
 def writer_kinds(repo):
     """{feature literal: kind} with kind in scalar|ragged|stack|dict, from
     the if/elif chain of RTDCWriter.store_feature"""
-    f = repo.func(WRI, "RTDCWriter.store_feature")
+    f0 = repo.func(WRI, "RTDCWriter.store_feature")
+    cls = repo.cls(WRI, "RTDCWriter")
+    # the chain sits in store_feature or in a private method it delegates
+    # to (store_feature split into "prepare" and "write" steps)
+    cands, todo, seen = [], [f0], set()
+    while todo:
+        g = todo.pop(0)
+        if g.name in seen:
+            continue
+        seen.add(g.name)
+        cands.append(g)
+        for c in walk(g):
+            if isinstance(c, ast.Call) and isinstance(
+                    c.func, ast.Attribute) and isinstance(
+                    c.func.value, ast.Name) and c.func.value.id == "self" \
+                    and c.func.attr.startswith("_"):
+                for st in cls.body:
+                    if isinstance(st, ast.FunctionDef) \
+                            and st.name == c.func.attr:
+                        todo.append(st)
     chain = None
-    for n in walk(f):
-        if isinstance(n, ast.If) and isinstance(n.test, ast.Compare) \
-                and isinstance(n.test.left, ast.Name) and len(
-                n.test.ops) == 1 and isinstance(n.test.ops[0], ast.Eq) \
-                and const_str(n.test.comparators[0]) == "index" \
-                and len(n.orelse) == 1 and isinstance(n.orelse[0], ast.If):
-            chain = n
+    f = f0
+    for g in cands:
+        for n in walk(g):
+            if isinstance(n, ast.If) and isinstance(n.test, ast.Compare) \
+                    and isinstance(n.test.left, ast.Name) and len(
+                    n.test.ops) == 1 and isinstance(
+                    n.test.ops[0], ast.Eq) \
+                    and const_str(n.test.comparators[0]) == "index" \
+                    and len(n.orelse) == 1 and isinstance(
+                    n.orelse[0], ast.If):
+                chain = n
+                f = g
+        if chain is not None:
+            break
     if chain is None:
         raise AnalysisError("RTDCWriter.store_feature: dispatch chain "
                             "(`feat == 'index'` …) not found")
@@ -1716,5 +1742,24 @@ MUTANTS = list(MUTANTS) + [
     ("hdf5: limiting branch off by one", EXP,
      ("                filter_arr[l_min:] = False",
       "                filter_arr[l_min - 1:] = False"), "R2.3"),
+]
+
+
+def _dispatch_in_helper(src):
+    """RTDCWriter.store_feature: the kind dispatch moved into a private
+    method the public one delegates to"""
+    start = src.index('        if feat == "index":\n            # By design')
+    end = src.index("    def store_log(self, name, lines):")
+    body = src[start:end]
+    helper = ("    def _write_feature_data(self, events, feat, data, dtype, "
+              "shape):\n" + body)
+    call = ("        self._write_feature_data(events=events, feat=feat, "
+            "data=data,\n"
+            "                                 dtype=dtype, shape=shape)\n\n")
+    return src[:start] + call + helper + src[end:]
+
+
+TWINS = list(TWINS) + [
+    ("writer: kind dispatch in a private method", WRI, _dispatch_in_helper),
 ]
 
